@@ -1,5 +1,5 @@
 (** C05 - bytemuck layout checks make a compiling struct match the WGSL layout. *)
-From W2W Require Import Wf GenInv StructSpec StructProof.
+From W2W Require Import Wf GenInv StructSpec StructProof C05Proof.
 Local Open Scope N_scope.
 
 (** 1. With bytemuck host-shareable derives, every emitted host-shareable struct carries a size assertion with
@@ -7,21 +7,12 @@ Local Open Scope N_scope.
     member's WGSL offset; no other struct carries assertions (that part is C09). *)
 Theorem C05_holds_bool : forall m src inc o out_,
   wf m = true -> gen m src inc o = Ok out_ -> C05_ok m o out_ = true.
-Proof.
-  intros m src inc o out_ Hwf Hgen. destruct (gen_inv _ _ _ _ _ Hgen) as [bgd pc _ Hss _ _ _ _ _ _ _ _ _ _ _ _ _ _ _].
-  exact (C05_ok_structs m o (o_structs out_) Hwf Hss).
-Qed.
+Proof. exact C05_ok_gen. Qed.
 Print Assumptions C05_holds_bool.
 
 (** 2. Soundness of the emitted check, for an ARBITRARY Rust layout (no assumption about rustc): the
     assertions pass iff the Rust struct has exactly the asserted size and field offsets. Hence a compiling
     struct has the WGSL numbers of part 1, and a differing layout is rejected at compile time. *)
-Record rust_layout := { rl_size : N; rl_offset : string -> N }.
-
-Definition asserts_pass (s : out_struct) (rl : rust_layout) : Prop :=
-  (forall n, s_assert_size s = Some n -> rl_size rl = n) /\
-  (forall f n, In (f, n) (s_assert_offsets s) -> rl_offset rl f = n).
-
 Theorem C05_check_sound : forall m o e s rl,
   struct_asserts_ok m o e s = true ->
   w_bm_host o && host_shareable_b m (fst (fst e)) = true ->
@@ -32,32 +23,19 @@ Theorem C05_check_sound : forall m o e s rl,
           (filter (fun mem => existsb (fun a => match m_name mem with Some n => String.eqb (fst a) n | None => false end)
                                       (s_assert_offsets s)) (user_members (snd e))) /\
    length (s_assert_offsets s) = length (user_members (snd e))).
-Proof.
-  intros m o [[h n] ms] s rl Hok Hhost t Ht. cbn [fst snd] in *.
-  unfold struct_asserts_ok in Hok. rewrite Hhost, Ht in Hok.
-  apply andb_true_iff in Hok as [Hsz Hoffs].
-  assert (Hsize : s_assert_size s = Some (t_size t)).
-  { destruct (s_assert_size s) as [x|]; cbn in Hsz; [|discriminate]. apply N.eqb_eq in Hsz. congruence. }
-  assert (Hrel : Forall2 (fun mem a => m_name mem = Some (fst a) /\ snd a = m_offset mem) (user_members ms) (s_assert_offsets s)).
-  { clear -Hoffs. revert Hoffs. generalize (s_assert_offsets s) as offs. induction (user_members ms) as [|mem l IH]; intros [|a offs] H; cbn in H; try discriminate; [constructor|].
-    apply andb_true_iff in H as [Ha Hr]. destruct (m_name mem) as [nm|] eqn:E; [|discriminate].
-    apply andb_true_iff in Ha as [Hn Ho]. apply String.eqb_eq in Hn. apply N.eqb_eq in Ho. constructor; [split; congruence|apply IH; exact Hr]. }
-  unfold asserts_pass. rewrite Hsize. split.
-  - intros [Hs Ho]. split; [apply Hs; reflexivity|]. split.
-    + apply Forall_forall. intros mem Hmem nm Hnm. apply filter_In in Hmem as [Hmem _].
-      clear -Hrel Ho Hmem Hnm. induction Hrel as [|x a l l' [Hx Hoff] _ IH]; [contradiction|].
-      destruct Hmem as [<-|Hmem].
-      * rewrite Hnm in Hx. inversion Hx; subst nm. rewrite <- Hoff. apply Ho. left. destruct a; reflexivity.
-      * apply IH; [|exact Hmem]. intros f k Hin. apply Ho. right. exact Hin.
-    + symmetry. clear -Hrel. induction Hrel; cbn; congruence.
-  - intros (Hs & Hall & _). split; [intros k Hk; inversion Hk; subst; exact Hs|].
-    intros f k Hin. rewrite Forall_forall in Hall.
-    clear Hsz Hoffs Hsize. induction Hrel as [|x a l l' [Hx Hoff] Hrel IH]; [contradiction|].
-    destruct Hin as [->|Hin].
-    + cbn in Hx, Hoff. subst k. apply (Hall x); [|exact Hx].
-      apply filter_In. split; [left; reflexivity|]. cbn. rewrite Hx. cbn. rewrite String.eqb_refl. reflexivity.
-    + apply IH; [|exact Hin]. intros mem Hmem nm Hnm. apply (Hall mem); [|exact Hnm].
-      apply filter_In in Hmem as [Hmem Hex]. apply filter_In. split; [right; exact Hmem|].
-      cbn. rewrite Hex. apply orb_true_r.
-Qed.
+Proof. exact check_sound. Qed.
 Print Assumptions C05_check_sound.
+
+(** 3. Parts 1 and 2 composed - the property as stated: with the bytemuck host-shareable switch on, for every
+    emitted host-shareable struct and ANY Rust layout under which its compile-time checks pass (i.e. whenever the
+    module compiles), the Rust struct has the WGSL size of the struct and the WGSL offset of every (non-builtin)
+    field. *)
+Theorem C05_holds : forall m src inc o out_,
+  wf m = true -> w_bm_host o = true -> gen m src inc o = Ok out_ ->
+  forall e s rl t, In (e, s) (combine (emitted_structs m) (o_structs out_)) ->
+    host_shareable_b m (fst (fst e)) = true -> get_ty m (fst (fst e)) = Some t ->
+    asserts_pass s rl ->
+    rl_size rl = t_size t /\
+    Forall (fun mem => forall n, m_name mem = Some n -> rl_offset rl n = m_offset mem) (user_members (snd e)).
+Proof. exact compiling_struct_matches. Qed.
+Print Assumptions C05_holds.
